@@ -103,7 +103,7 @@ def update_all(ctx):
     Lf, xf = Native("L", lambda *a: None), Native("x", lambda *a: None)
     path = (alg.sym("ta"), alg.sym("tb"), xf)
     try:
-        out = I.call(f, (ms, params, F0, Lf, path))
+        out = I.call(f, (ms, params, F0, Lf, path), {"rtol": alg.psym("rtol_user"), "max_step": alg.psym("hmax")})
     except RaiseSig as r:
         ctx.ob("C06.update_all", "call", False, f"raises {r.exc.typename}", loc)
         return
@@ -117,8 +117,11 @@ def update_all(ctx):
            "every mineral must receive the caller's deformation_gradient (F is independent of the phase)", loc)
     ctx.ob("C06.update_all", "same params/L/pathline", all(arg(c, "params", 0) is params and arg(c, "get_velocity_gradient", 2) is Lf
                                                            and arg(c, "pathline", 3) is path for c in calls), "", loc)
+    kws = [{k: keyof(v) for k, v in c[2].items() if k not in ("params", "deformation_gradient", "get_velocity_gradient", "pathline", "get_regime")} for c in calls]
+    ctx.ob("C06.update_all", "every mineral receives the caller's solver options", all(k == kws[0] for k in kws) and set(kws[0]) == {"rtol", "max_step"},
+           f"extra keyword arguments per call: {[sorted(k) for k in kws]}", loc)
     last = symarr(f"Fret{len(calls)}", (3, 3))
     ctx.ob("C06.update_all", "returns the last update's F", isinstance(out, np.ndarray) and all(a == b for a, b in zip(out.flat, last.flat)),
            f"returned {out!r}"[:120], loc)
     ctx.observe("update_all([]) raises UnboundLocalError (outside the property's quantifier: at least one mineral)")
-    ctx.floor("C06.update_all", 4)
+    ctx.floor("C06.update_all", 5)
